@@ -91,6 +91,54 @@ c13_p!(c13_q_forward_plain, c13_q_backward_plain, 0);
 c13_p!(c13_q_forward_e0, c13_q_backward_e0, 1);
 c13_p!(c13_q_forward_e1, c13_q_backward_e1, 2);
 
+/// Through the combined Keyboard, with a framing timeout (clear()) at a symbolic point inside the
+/// sequence: both sets must still agree, because clear() belongs to the bit framing only.
+#[kani::proof]
+pub fn c13_q_keyboard_clear_inside_sequence() {
+    use pc_keyboard::layouts::Us104Key;
+    let p: u8 = kani::any();
+    kani::assume(p < 3);
+    let c: u8 = kani::any();
+    let brk: bool = kani::any();
+    let t = XLAT[c as usize];
+    kani::assume(t != 0xFF);
+    kani::assume(!known_xlat_forward(p, c));
+    kani::assume(!(p == 0 && brk && (t == 0x60 || t == 0x61)));
+    let at: u8 = kani::any(); // 0: before the prefix, 1: after the prefix, 2: after F0 (Set 2 only)
+    kani::assume(at < 3);
+    let mut k2 = Keyboard::new(ScancodeSet2::new(), Us104Key, HandleControl::Ignore);
+    let mut k1 = Keyboard::new(ScancodeSet1::new(), Us104Key, HandleControl::Ignore);
+    if at == 0 {
+        k2.clear();
+        k1.clear();
+    }
+    if p == 1 {
+        let _ = k2.add_byte(0xE0);
+        let _ = k1.add_byte(0xE0);
+    } else if p == 2 {
+        let _ = k2.add_byte(0xE1);
+        let _ = k1.add_byte(0xE1);
+    }
+    if at == 1 {
+        k2.clear();
+        k1.clear();
+    }
+    if brk {
+        let _ = k2.add_byte(0xF0);
+    }
+    if at == 2 {
+        k2.clear();
+        k1.clear();
+    }
+    let e2 = k2.add_byte(c);
+    let e1 = k1.add_byte(t | if brk { 0x80 } else { 0 });
+    crate::show!("C13 keyboard prefix={} break={} code={:#04x} clear_at={} set2={:?} set1={:?}", p, brk, c, at, e2, e1);
+    if is_key_event(&e2) {
+        assert!(e1 == e2, "C13: with a clear() inside the sequence the two sets decode to different events");
+    }
+    kani::cover!(is_key_event(&e2) && at == 1 && p == 1);
+}
+
 /// Deep (also run when a closure assertion fails): two complete symbolic Set 2 sequences back to
 /// back and their byte-wise i8042 translation; wherever the second Set 2 sequence yields a key
 /// event, the translated stream yields the identical event at the same position.
